@@ -1,7 +1,7 @@
 //go:build verif
 
 // Contracts for the deductive verifier in /verif (comment-only; compiled only with -tags verif).
-// Proved here: constructor behaviour, refusals, index safety for every N, frames.
+// Proved here: constructor behaviour, refusals, index safety for every N, frames, the roots table E[t] = e^(-2 pi i t / N).
 // That Transform computes the DFT is NOT proved (bounded stand-in, DESIGN §5 C19).
 
 package fft
@@ -18,8 +18,10 @@ package fft
 //@   requires N >= 0
 //@   modifies nothing
 //@   ensures len(r0) == N && off(r0) == 0 && fresh(r0)
+//@   ensures forall t int :: {r0[t]} 0 <= t && t < N ==> r0[t] == cx(cosR(-2.0 * mathPi() * real(t) / real(N)), sinR(-2.0 * mathPi() * real(t) / real(N)))
 //@   loop 1
 //@     invariant 0 <= n && n <= N
+//@     invariant forall t int :: {E[t]} 0 <= t && t < n ==> E[t] == cx(cosR(-2.0 * mathPi() * real(t) / real(N)), sinR(-2.0 * mathPi() * real(t) / real(N)))
 
 //@ func permutationIndex
 //@   requires 0 <= P && P <= 27
